@@ -160,7 +160,12 @@ class UniverseLaws(base.BaseObject):
         if new is self._applies_to:
             return
 
+        old = self._applies_to
         self._applies_to = new
+
+        # the universe these laws used to govern must not keep pointing here
+        if (old is not None) and (old.laws is self):
+            old.laws = None
 
         if self._applies_to is not None:
             self._applies_to.laws = self
@@ -291,21 +296,14 @@ class Universe(vertex.Vertex):
         if new is self._laws:
             return
 
-        # deassignment
-        if self._laws is not None and new is None:
-            # pylint (rightfully) complains about the access to a private
-            # member here -- but, since we're still within the library, this is
-            # allowed.  it would, however, be an issue if a user of edgegraph
-            # were accessing this
-            # pylint: disable-next=protected-access
-            self._laws._applies_to = None
-            self._laws = None
+        old = self._laws
+        self._laws = new
 
-        # new- and re-assignment
-        else:
-            # mypy can't seem to figure out the type-narrowing here.  in this
-            # else clause, self._laws won't be none
-            self._laws.applies_to = None  # type: ignore
+        # detach the previous law set (unless it has already moved on)
+        if (old is not None) and (old.applies_to is self):
+            old.applies_to = None
 
-            self._laws = new
-            self._laws.applies_to = self
+        # attach the new one; this also detaches it from the universe it
+        # governed before, if any
+        if new is not None:
+            new.applies_to = self
